@@ -535,6 +535,34 @@ def run_shipped(ns, ctx, spec):
         if (y * y - (x * x * x + int(cv.curve.a()) * x + int(cv.curve.b()))) % p:
             offer("off_curve", x, y)
         offer("off_curve", qx, (qy + 1) % p)
+    # COMPRESSED encodings (02/03 | x) whose x has no point on the curve (x^3+ax+b is not a square): nothing can be decompressed
+    a_c, b_c = int(cv.curve.a()), int(cv.curve.b())
+    found = 0
+    for _ in range(200):
+        x = rng.randrange(p)
+        if sqrt_mod((x * x * x + a_c * x + b_c) % p, p) is not None:
+            continue
+        found += 1
+        ctx.bin("invalid_compressed_x_without_point")
+        good_c = K.SigningKey.from_secret_exponent(5, curve=cv).verifying_key.to_der("compressed")
+        for lead in (b"\x02", b"\x03"):
+            comp = lead + x.to_bytes(L, "big")
+            ways = [("from_string_compressed", lambda comp=comp: K.VerifyingKey.from_string(comp, curve=cv)),
+                    ("ecdh_load_bytes_compressed", lambda comp=comp: ns.ecdh.ECDH(curve=cv).load_received_public_key_bytes(comp)),
+                    ("point_from_bytes_compressed", lambda comp=comp: PJ.from_bytes(cv.curve, comp))]
+            if good_c[-L:] == K.SigningKey.from_secret_exponent(5, curve=cv).verifying_key.to_string("compressed")[1:]:
+                ways.append(("from_der_compressed", lambda comp=comp: K.VerifyingKey.from_der(good_c[: -(L + 1)] + comp)))
+            for wname, fn in ways:
+                ctx.ev()
+                ctx.distinct(cv.name, "compressed_x_without_point", wname, x, lead)
+                try:
+                    fn()
+                    ctx.violation("invalid_public_point_accepted:compressed_x_without_point:" + wname, {"curve": cv.name, "x": x}, dict(rp, x=hex(x), cls="compressed_x_without_point"))
+                except Exception as e:
+                    ctx.exc(e)
+                ctx.mon("invalid_point_offered")
+        if found >= (2 if quick else 12):
+            break
     if p + 5 < 1 << (8 * L):
         offer("coordinate_ge_p", qx + p if qx + p < 1 << (8 * L) else p + 1, qy)
         offer("coordinate_ge_p", qx, p + rng.randrange(0, (1 << (8 * L)) - p))
